@@ -214,6 +214,8 @@ SIMW_FN __m512i _mm512_sub_epi64(__m512i a, __m512i b) { __m512i r; SIMW_LOOP8(a
 SIMW_FN __m512i _mm512_srli_epi64(__m512i a, unsigned c) { __m512i r; SIMW_LOOP8(simw::shr(a.v[i], c)); return r; }
 SIMW_FN __m512i _mm512_slli_epi64(__m512i a, unsigned c) { __m512i r; SIMW_LOOP8(simw::shl(a.v[i], c)); return r; }
 SIMW_FN __m512i _mm512_mul_epu32(__m512i a, __m512i b) { __m512i r; SIMW_LOOP8(simw::lo(a.v[i]) * simw::lo(b.v[i])); return r; }
+SIMW_FN __m512i _mm512_mullox_epi64(__m512i a, __m512i b) { __m512i r; SIMW_LOOP8(a.v[i] * b.v[i]); return r; } // low lane-width half of the product
+SIMW_FN __m512i _mm512_mullo_epi64(__m512i a, __m512i b) { return _mm512_mullox_epi64(a, b); }
 SIMW_FN __m512i _mm512_movehdup_ps(__m512i a) { __m512i r; SIMW_LOOP8(simw::mk(simw::hi(a.v[i]), simw::hi(a.v[i]))); return r; }
 SIMW_FN __m512i _mm512_moveldup_ps(__m512i a) { __m512i r; SIMW_LOOP8(simw::mk(simw::lo(a.v[i]), simw::lo(a.v[i]))); return r; }
 SIMW_FN __m512i _mm512_castsi512_ps(__m512i a) { return a; }
